@@ -15,7 +15,7 @@ func c08(r *core.Run) {
 		// isolates the killing case in a fresh process and reports it
 		r.RunChildren(core.ChildSpec{Bin: bin, Monitor: "c08", Stream: stream, From: 0, To: n, Timeout: 15 * time.Minute})
 	}
-	run("cycles", uint64(r.Pick(50*6, 50*200)))
+	run("cycles", uint64(r.Pick(60*6, 60*200)))
 	run("wrongkind", uint64(r.Pick(57*2, 57*20)))
 	run("deep", uint64(r.Pick(32, 400)))
 	run("valid", uint64(r.Pick(1200, 40000)))
@@ -24,7 +24,7 @@ func c08(r *core.Run) {
 	r.Require("cases", 5000)
 	r.Require("outcome_generate_ok", 100)
 	r.Require("outcome_compile_error", 1000)
-	r.Set("exhaustive_subspace", "stream cycles: 10 cycle kinds (typedef, constant, constant<->struct default, struct default nesting, service inheritance, include loop, self include, required struct nesting, union/exception nesting, typedef/struct/constant knot) x lengths 1..5; stream wrongkind: a fixed list of 57 wrong-kind references, bad annotations and Go-level name clashes")
+	r.Set("exhaustive_subspace", "stream cycles: 12 cycle kinds (typedef, constant, constant<->struct default, struct default nesting, service inheritance, include loop, self include, required struct nesting, union/exception nesting, typedef/struct/constant knot, struct default containing its own struct inside a container, service inheritance across an include loop) x lengths 1..5; stream wrongkind: a fixed list of 57 wrong-kind references, bad annotations and Go-level name clashes")
 	r.Assumption("'never fails to terminate' is decided by a 15-minute per-child watchdog plus reproduction of the case alone; panics and fatal errors by child exit status")
 	r.FinishStd("file sets: random bytes, token-mutated valid multi-file programs, valid programs with go.* annotations, every reference-cycle kind x length 1..5, wrong-kind references and bad annotations, nesting depth to 250 (deeper nesting terminates but costs super-linear time: depth 2000 took 40-390 s per file, observed, not a verdict); each is run through compile.Compile (strict and NonStrict) and, when that succeeds, gen.Generate, in a child process; every run must end with a result or an error. non-trivial = file set > 20 bytes, distinct by content", "cases")
 }
